@@ -28,6 +28,9 @@ func (zzLogger) Errorf(string, ...interface{}) {}
 
 func zzNewLogger(name string) logging.Logger { return zzLogger{} }
 
+// ULID contract: a token distinct from every token issued before
+func zzNewID() string { return vToken("id-") }
+
 // zzCtx: cancellable context carrying the id of the attempt (ghost)
 type zzCtx struct {
 	done chan struct{}
@@ -56,6 +59,7 @@ type zzStore struct {
 	mu      sync.Mutex
 	present bool
 	key     string
+	val     []byte
 	ver     string
 	exp     time.Time
 	changed chan struct{}
@@ -79,8 +83,8 @@ func zzNewStore(maxFaults int) *zzStore {
 }
 
 // fault: 0 none, 1 request lost, 2 reply lost
-func (s *zzStore) fault() int {
-	if s.faults >= s.maxFaults {
+func (s *zzStore) fault(op int) int {
+	if s.faults >= s.maxFaults || (vParam("FAULTMASK")>>uint(op))&1 == 0 {
 		return 0
 	}
 	f := vChoose("fault", 3)
@@ -149,7 +153,7 @@ func (s *zzStore) Create(ctx context.Context, r kvs.Record) (string, error) {
 	if ctx.Err() != nil {
 		return "", ctx.Err()
 	}
-	f := s.fault()
+	f := s.fault(0)
 	if f == 1 {
 		return "", zzTransient
 	}
@@ -162,6 +166,7 @@ func (s *zzStore) Create(ctx context.Context, r kvs.Record) (string, error) {
 	}
 	vAssert(r.ExpiresAt != nil, "lock record created without an expiration")
 	s.present, s.key, s.ver, s.exp = true, r.Key, vToken("v"), *r.ExpiresAt
+	s.val = r.Value
 	s.guard = s.ver
 	s.lastCreateBy[zzCtxID(ctx)] = s.ver
 	s.bump()
@@ -178,7 +183,7 @@ func (s *zzStore) CasByVersion(ctx context.Context, r kvs.Record) (kvs.Record, e
 	if s.renewFailAt != 0 && s.casCalls == s.renewFailAt {
 		return kvs.Record{}, zzTransient
 	}
-	f := s.fault()
+	f := s.fault(1)
 	if f == 1 {
 		return kvs.Record{}, zzTransient
 	}
@@ -192,6 +197,7 @@ func (s *zzStore) CasByVersion(ctx context.Context, r kvs.Record) (kvs.Record, e
 	vAssert(r.ExpiresAt != nil, "lock record renewed without an expiration")
 	old := s.ver
 	s.ver, s.exp = vToken("v"), *r.ExpiresAt
+	s.val = r.Value
 	if s.guard == old {
 		s.guard = s.ver
 	}
@@ -211,7 +217,7 @@ func (s *zzStore) CasByVersion(ctx context.Context, r kvs.Record) (kvs.Record, e
 func (s *zzStore) Delete(ctx context.Context, key string) error {
 	s.mu.Lock()
 	defer s.mu.Unlock()
-	f := s.fault()
+	f := s.fault(2)
 	if f == 1 {
 		// the Delete of an Unlock is lost: the tenure is over, the record stays behind and may lapse
 		if s.present && s.guard == s.ver {
@@ -240,13 +246,13 @@ func (s *zzStore) Get(ctx context.Context, key string) (kvs.Record, error) {
 		return kvs.Record{}, errors.ErrNotExist
 	}
 	e := s.exp
-	return kvs.Record{Key: s.key, Version: s.ver, ExpiresAt: &e}, nil
+	return kvs.Record{Key: s.key, Value: s.val, Version: s.ver, ExpiresAt: &e}, nil
 }
 
 func (s *zzStore) WaitForVersionChange(ctx context.Context, key, ver string) error {
 	for {
 		s.mu.Lock()
-		if s.fault() != 0 {
+		if s.fault(3) != 0 {
 			s.mu.Unlock()
 			return zzTransient
 		}
@@ -459,7 +465,11 @@ func zzC01Mutex() {
 		l := w.lockers[t%nLock]
 		vSpawn("locker", func() {
 			holding := false
-			for s := 0; s < P; s++ {
+			steps := P
+			if t > 0 && vParam("P2") > 0 {
+				steps = vParam("P2")
+			}
+			for s := 0; s < steps; s++ {
 				if !holding {
 					holding = w.attempt(t, l, kinds)
 				} else {
@@ -616,6 +626,9 @@ func zzC04Shutdown() {
 	vReach("late-done")
 	<-fin
 	vAssert(w.holders == 0, "holder left")
+	w.st.mu.Lock()
+	vAssert(!w.st.present, "the lock record is still in the storage although every holder has unlocked (Unlock after Shutdown must still delete it)")
+	w.st.mu.Unlock()
 }
 
 // ---------------------------------------------------------------------------------------------
